@@ -37,13 +37,16 @@ func (World) Stub(prop string) []string {
 func (World) Assumptions(prop string) []string {
 	a := []string{"a restart happens on a final block: afterwards only the head root and later commits are promised to stay retrievable (the pruning queue and the in-memory part of the waiting list are lost)", "state history is linear: issuing the prune of block k's root (OldRoot) ends the life of every root up to k; a rolled-back head's root is dead; every other committed root and the current root are live",
 		"a live root is 'retrievable' iff an independent walker over the raw trie disk reaches every node of its main trie and of every data trie referenced by an account leaf, each stored under the hash of its own bytes, and the leaves equal the model of that block",
-		"no write faults, torn writes or dirty crashes; read/remove errors only during finalize/rollback steps (pruning may do less, never more)"}
+		"no write faults, torn writes or dirty crashes; read/remove errors only during finalize/rollback steps (pruning may do less, never more); an error of the waiting list's spill DB fails every read of that step (ShouldKeepHash visits entries in Go map order: a single failing read would not replay)",
+		"a rollback may find uncommitted, unreverted changes of the block being executed in place (step dirty): RecreateTrie of the parent drops them"}
 	if prop == "C09" {
 		a = append(a, "garbage clause (nodes of pruned roots are removed once pruning is unblocked) is checked only at the end of runs without restart, without faults and with a pruning buffer that cannot overflow, after all pending finalizations were issued with pruning unblocked",
 			"known finding recurring-root-value: the waiting list is keyed by root VALUE; a violation is attributed to it only in a history where some root value was committed at least twice")
 	} else {
 		a = append(a, "snapshots and checkpoints are requested for roots of FINAL blocks in chain order, a checkpoint only after a completed snapshot, no restart in between (the way the node uses them); snapshot DBs are in-memory, so a restart would lose them",
-			"a snapshot is verified when it completed (pruning unblocked, workers idle), before a later snapshot can rotate it out")
+			"a snapshot is verified when it completed (pruning unblocked, workers idle), before a later snapshot can rotate it out",
+			"late snapshot requests for pruned roots (step stalesnapshot) only for roots older than the last completed snapshot: TakeSnapshot starts with RemoveCommitted(root), which for a newer root empties the checkpoint hashes holder although the request is then refused (DESIGN.md 11.6)",
+			"a snapshot/checkpoint is not judged when a C09 violation was recorded in the run AND its root is unreadable on the main disk at verification time (the C09 known finding rollback-while-pruning-blocked destroys live roots exactly in histories where a snapshot blocks pruning)")
 	}
 	return a
 }
